@@ -13,7 +13,8 @@ P = {'id': 'C12',
               'wrapper_search_same',
               'kasai_correct',
               'bwt_correct',
-              'bwt_perm'],
+              'bwt_perm',
+              'c12_pipeline'],
  'trusted': ['modelled (M+S): src/algorithms/suffix_array.rs SuffixArray::{compare_suffix_pattern, lower_bound, upper_bound, search_range, search}, '
              'SuffixArrayBuilder::{select_algorithm, build, build_sequential, build_parallel, dc3_construct, divsufsort_construct, '
              'larsson_sadakane_construct, fallback_sort}, LcpArray::compute_lcp_kasai, EnhancedSuffixArray::compute_bwt; '
